@@ -9,7 +9,7 @@ PROP = {
                    "checks unique ids, symmetric links and CheckConsistency; DedupeItems is checked against before/after URL multisets (exactly one non-seed node per URL, "
                    "no URL lost or invented, pending nodes untouched); CompleteAndCheck must return true iff the pre-call snapshot has no Fresh/PreProcessed/Archived node "
                    "(also probed on clones mid-pass). Small scope (2-URL alphabet, <= 5/6 nodes, <= 3/4 passes) is enumerated exhaustively; larger trees are sampled."),
-    "level_note": "The stage behaviour is re-stated by the harness (same API calls in the same order as preprocess/archive/postprocessItem/finisher); trees no stage sequence can produce are outside the domain. The real stages run the same API in the C01 pipeline harness.",
+    "level_note": "C11/concurrent adds bursts of concurrent RemoveChild/AddChild calls on one parent (distinct children, so the outcome is interleaving-independent). The stage behaviour is re-stated by the harness (same API calls in the same order as preprocess/archive/postprocessItem/finisher); trees no stage sequence can produce are outside the domain. The real stages run the same API in the C01 pipeline harness.",
     "rule": ("histories = choice sequences interpreted by a pipeline-shaped pass runner (rapid lists for large trees; an odometer enumerating every sequence for the small scope); "
              "non-trivial = the tree reached depth >= 2 and contained a duplicate URL or a redirect; distinct = distinct operation log (history) / distinct (start state, choice vector)"),
     "assumptions": ["pending(n) <=> status in {Fresh, PreProcessed, Archived}", "the seed's own URL may be repeated by one non-seed node (DedupeItems skips the seed by design)"],
@@ -17,6 +17,8 @@ PROP = {
         {"name": "c11", "pkg": "./pkg/models", "run": "^TestVerif_C11_History$", "kind": "rapid",
          "facets": ["C11/history", "C11/wellformed", "C11/dedupe", "C11/complete-iff", "C11/complete-iff-midpass"],
          "checks": (30000, 400000), "shards": (2, 16), "timeout": (600, 3000)},
+        {"name": "c11conc", "pkg": "./pkg/models", "run": "^TestVerif_C11_Concurrent$", "kind": "rapid",
+         "facets": ["C11/concurrent"], "checks": (1500, 30000), "shards": (2, 8), "timeout": (600, 3000)},
         {"name": "c11enum", "pkg": "./pkg/models", "run": "^TestVerif_C11_Exhaustive$", "kind": "plain",
          "facets": ["C11/wellformed#enum", "C11/dedupe#enum", "C11/complete-iff#enum", "C11/complete-iff-midpass#enum"],
          "shards": (8, 16), "timeout": (600, 3000),
